@@ -667,34 +667,54 @@ example :
       [some (.err .casMismatch), some (.wrote 2 .none false), some (.err .casMismatch)] ∧
     cf.log.map (·.1) = [1, 0, 2] := by decide
 
-/-! ## cold start (mount-level caches): two places where the unchanged code violates "a request that fails leaves
-data and metadata unchanged" — full statements, what holds, and counterexamples (both reproduced on the real code by
-stream `kv2-cold`) -/
+/-! ## cold start (mount-level caches): the config cache (finding F28, repaired: full theorem) and the salt cache
+(finding F29: the unchanged code violates "a request that fails leaves data and metadata unchanged" — full statement,
+what holds, counterexample; reproduced on the real code by stream `kv2-cold`) -/
 
-/-- full statement: a config write that fails leaves the configuration the backend applies unchanged -/
-def failed_config_write_no_change_full : Prop :=
-  ∀ (c : Cold) (mx : Option Int) (cr : Option Bool) (dva : Option DvaArg) (tx : Bool) (k : Nat),
-    (confWriteF c mx cr dva tx (some k)).2.1 = true → (confWriteF c mx cr dva tx (some k)).1.effective = c.effective
-
-/-- it holds whenever the config cache is warm (`config()` then hands out a copy), for every fault position -/
-theorem failed_config_write_no_change_partial (c : Cold) (mx : Option Int) (cr : Option Bool) (dva : Option DvaArg)
-    (tx : Bool) (k : Nat) (hwarm : c.cfgCache ≠ none)
-    (h : (confWriteF c mx cr dva tx (some k)).2.1 = true) :
-    (confWriteF c mx cr dva tx (some k)).1 = c := by
-  obtain ⟨cfg, hc⟩ := Option.ne_none_iff_exists'.mp hwarm
+/-- A config write that fails leaves the configuration unchanged — the one the backend applies and the stored one —
+for EVERY fault position (BeginTx, Get, Put, Commit), transactional and non-transactional storage, config cache cold
+or warm.  (Full since the repair of finding F28: `config()` hands out a copy on the cache-miss path, too; the only
+trace a failed request can leave is a cache filled with the stored value.) -/
+theorem failed_config_write_no_change (c : Cold) (mx : Option Int) (cr : Option Bool) (dva : Option DvaArg)
+    (tx : Bool) (fault : Option Nat) (h : (confWriteF c mx cr dva tx fault).2.1 = true) :
+    (confWriteF c mx cr dva tx fault).1.effective = c.effective ∧
+    (confWriteF c mx cr dva tx fault).1.cfgStored = c.cfgStored ∧
+    (confWriteF c mx cr dva tx fault).1.restart = c.restart := by
   revert h
   unfold confWriteF
-  simp only [hc]
-  repeat' split
-  all_goals (intro h; first | rfl | simp at h)
+  cases hc : c.cfgCache with
+  | some cfg =>
+    simp only
+    repeat' split
+    all_goals (intro h; first | exact ⟨rfl, rfl, rfl⟩ | cases h)
+  | none =>
+    simp only
+    repeat' split
+    all_goals (intro h; first | exact ⟨rfl, rfl, rfl⟩ | (simp [Cold.effective, Cold.restart, hc]; done) | cases h)
 
-/-- … and fails from a cold cache: on non-transactional storage the first request `config cas_required=true` whose Put
-(storage operation 1) fails returns an error, yet the backend now enforces cas_required (until a restart) -/
-theorem failed_config_write_no_change_cex : ¬ failed_config_write_no_change_full := by
-  intro h
-  have := h coldInit none (some true) none false 1 (by decide)
-  revert this
-  decide
+/-- … and a config write that succeeds is applied and stored alike -/
+theorem config_write_success_published (c : Cold) (mx : Option Int) (cr : Option Bool) (dva : Option DvaArg)
+    (tx : Bool) (fault : Option Nat) (h : (confWriteF c mx cr dva tx fault).2.1 = false)
+    (hargs : ¬ (mx.isNone ∧ cr.isNone ∧ dva.isNone)) :
+    (confWriteF c mx cr dva tx fault).1.effective = (confWriteF c mx cr dva tx fault).1.cfgStored ∧
+    (confWriteF c mx cr dva tx fault).1.cfgStored = confWrite c.effective mx cr dva := by
+  revert h
+  unfold confWriteF
+  cases hc : c.cfgCache with
+  | some cfg =>
+    simp only
+    repeat' split
+    all_goals (intro h; first | exact absurd ‹_› hargs | (simp [Cold.effective, hc]; done) | cases h)
+  | none =>
+    simp only
+    repeat' split
+    all_goals (intro h; first | exact absurd ‹_› hargs | (simp [Cold.effective, hc]; done) | cases h)
+
+/-- non-vacuity: cold cache, non-transactional storage, `config cas_required=true` whose Put (operation 1) fails:
+the request errors and the backend keeps applying cas_required=false -/
+example :
+    let r := confWriteF coldInit none (some true) none false (some 1)
+    r.2.1 = true ∧ r.1.effective = initCfg ∧ r.1.cfgCache = some initCfg := by decide
 
 /-- full statement: whatever happens to a write (any fault position, either storage kind), the salt the backend keeps
 using is the persisted one — the invariant behind "data written successfully can be read after a restart" -/
